@@ -8,6 +8,7 @@ import (
 	"math"
 	"math/rand"
 	"reflect"
+	"regexp"
 	"sort"
 	"strings"
 	"time"
@@ -127,7 +128,11 @@ func c01Round(m map[string]any, kind string) Case {
 			Coq: "CRound " + gGval(normGeneric(m)) + " GNil"}
 	}
 	if !reflect.DeepEqual(back, m) {
-		fail = append(fail, "AsMap(FromMap(m)) != m")
+		if hasIndexKey(m) {
+			fail = append(fail, "AsMap(FromMap(m)) != m: member-name-ending-in-[n]-is-read-as-a-list-position")
+		} else {
+			fail = append(fail, "AsMap(FromMap(m)) != m")
+		}
 	}
 	// (flattened paths are only injective for path-safe member names: C02's domain)
 	if allKeysSafe(m) && len(d.Flatten()) != countScalars(m) {
@@ -373,6 +378,9 @@ func init() {
 				c01Round(map[string]any{"t": time.Date(2001, 12, 14, 0, 0, 0, 0, time.UTC)}, "round"),
 				c01Round(map[string]any{"m": map[any]any{1: "x"}}, "round"),
 				c01Round(map[string]any{"a": []any{[]any{nil}, map[string]any{}, []any{}}}, "round"),
+				// the recorded finding, exercised on every run: a member name with an index suffix
+				c01Round(map[string]any{"a[0]": 1}, "round"),
+				c01Round(map[string]any{"b": map[string]any{"x[2]": "v"}}, "round"),
 			}
 			for _, t := range c01Texts {
 				cs = append(cs, c01Text(t, strings.HasPrefix(t, "{\"")))
@@ -416,4 +424,24 @@ func allKeysSafe(v any) bool {
 		}
 	}
 	return true
+}
+
+var indexKeyRe = regexp.MustCompile(`\[\d+\]$`)
+
+func hasIndexKey(v any) bool {
+	switch x := v.(type) {
+	case map[string]any:
+		for k, c := range x {
+			if indexKeyRe.MatchString(k) || hasIndexKey(c) {
+				return true
+			}
+		}
+	case []any:
+		for _, c := range x {
+			if hasIndexKey(c) {
+				return true
+			}
+		}
+	}
+	return false
 }
